@@ -167,17 +167,18 @@ Block(body) == [a |-> [k |-> "block", body |-> SeqA(body), p_blank |-> FALSE],
                 t |-> G("block", "lead", "lead", TRUE) \o BlockT("block", body) \o G("block", "trail", "trail", TRUE) \o NL]
 
 \* if <c> ( <c> cond <c> ) <c> { ... }  <c> else if ...  <c> else <c> { ... }
-\* docs/parser.md puts no placeholder at the end of an if-block or after its closing brace
+\* docs/parser.md puts no placeholder at the end of an if-block or after its closing brace; "block_trail" is the
+\* position on the same line as the closing brace that is followed by else-if / else (`} // c<LF> else {`)
 IfBlockT(body) == W("{") \o NL \o CatT(body) \o G("if", "block_end", "inner", FALSE) \o W("}")
 CondT(n, kwT, c) ==
   kwT \o G(n, "after_kw", "in", TRUE) \o W("(") \o G(n, "cond_before", "in", TRUE) \o c.t \o G(n, "cond_after", "in", TRUE)
   \o W(")") \o G(n, "before_block", "in", TRUE)
 Elif(kwT, kw, c, body) ==
   [a |-> [k |-> "elif", p_kw |-> kw, cond |-> c.a, then |-> SeqA(body)],
-   t |-> G("elif", "lead", "lead", TRUE) \o CondT("elif", kwT, c) \o IfBlockT(body)]
+   t |-> G("if", "block_trail", "trail", FALSE) \o G("elif", "lead", "lead", TRUE) \o CondT("elif", kwT, c) \o IfBlockT(body)]
 Else(body) ==
   [a |-> [k |-> "else", body |-> SeqA(body)],
-   t |-> G("else", "lead", "lead", TRUE) \o W("else") \o G("else", "after_kw", "in", TRUE) \o IfBlockT(body)]
+   t |-> G("if", "block_trail", "trail", FALSE) \o G("else", "lead", "lead", TRUE) \o W("else") \o G("else", "after_kw", "in", TRUE) \o IfBlockT(body)]
 If(c, body, elifs, els) ==
   [a |-> [k |-> "if", cond |-> c.a, then |-> SeqA(body), elifs |-> SeqA(elifs), else |-> els.a, p_blank |-> FALSE],
    t |-> G("if", "lead", "lead", TRUE) \o CondT("if", W("if"), c) \o IfBlockT(body) \o CatT(elifs) \o els.t
@@ -381,6 +382,54 @@ GroupDocs(k) ==
   {[fam |-> "group", focus |-> "block",
     ds |-> <<Sub("vcl_recv", <<>>, "", [i \in 1..k |-> IF bl[i] THEN Blank(GroupPool[p[i]]) ELSE GroupPool[p[i]]])>>] :
      p \in Perms(Len(GroupPool), k), bl \in [1..k -> BOOLEAN]}
+
+(***************************************************************************)
+(* String literals whose source differs from their value in every way the  *)
+(* escape rules allow, in every position a string can take.                *)
+(***************************************************************************)
+sP2  == Str("/q%3Dx", "\"/q%253Dx\"")          \* %25 followed by an escape: the decoded text still contains one
+sP20 == Str("a b", "\"a%20b\"")
+sU4  == Str("A", "\"%u0041\"")
+sUb  == Str("B", "\"%u{42}\"")
+sLP  == Str("l%20m % n", "{\"l%20m % n\"}")     \* long strings are never decoded
+sML3 == Str("p\n\n\n q", "{\"p\n\n\n q\"}")  \* two empty lines inside a literal
+EscStrs == {sP2, sP20, sU4, sUb, sLP, sML3}
+EscStmts(s) ==
+  {SetS(idA, "=", s), AddS(idC, "=", s), ValS("log", "log", s), ValS("synthetic", "synthetic", s),
+   ValS("synthetic64", "synthetic.base64", s), ErrorS(Int("601", "601"), s), Call("helper", <<s, idB>>, "parens"),
+   FCall("std.collect", <<idA, s>>), SetS(idA, "=", FCallX("regsub", <<idA, s, sB>>)), SetS(idA, "=", Cat(s, idB, TRUE)),
+   SetS(idA, "=", Cat(idB, s, FALSE)), SetS(idA, "=", IfX(Cmp, s, sB)), Declare("var.t", "STRING", s),
+   If(Infix("==", idA, s), <<Esi>>, <<>>, NoneObj), If(Infix("~", idA, s), <<Esi>>, <<>>, NoneObj),
+   If(Cmp, <<Esi>>, <<Elif(W("elsif"), "elsif", Infix("&&", Infix("!=", idB, s), Not), <<LogA>>)>>, NoneObj),
+   Switch(FCallX("regsub", <<idA, s, sB>>), <<Case(TestEq(sA), <<Break>>, FALSE)>>)}
+  \cup (IF s \in {sLP, sML3} THEN {} ELSE {Switch(idA, <<Case(TestEq(s), <<Break>>, FALSE)>>)})      \* a case label is not a long string
+EscDecls(s) ==
+  {Table("t1", "STRING", <<TProp(s, sB, TRUE)>>), Table("t1", "", <<TProp(sA, s, TRUE)>>), Table("t1", "STRING", <<TProp(s, s, FALSE)>>),
+   Backend("b1", <<Prop("bprop", "host", s)>>), Backend("b1", <<Probe(<<Prop("bprop", "request", Cat(s, sB, FALSE))>>)>>),
+   Director("d1", "random", <<Prop("dprop", "quorum", s), DBackend(<<DProp("backend", Id("b1")), DProp("weight", s)>>)>>)}
+EscDocs ==
+  UNION {{[fam |-> "esc", focus |-> x.a.k, ds |-> <<Sub("vcl_recv", <<>>, "", <<x>>)>>] : x \in EscStmts(s)} : s \in EscStrs}
+  \cup UNION {{[fam |-> "esc", focus |-> d.a.k, ds |-> <<d>>] : d \in EscDecls(s)} : s \in EscStrs}
+  \cup {[fam |-> "esc", focus |-> "return", ds |-> <<Sub("f1", <<Param("STRING", "var.p")>>, "STRING", <<Return(s, "plain")>>)>>] : s \in EscStrs}
+
+(***************************************************************************)
+(* Declaration bodies with blank-line groups: properties / entries with    *)
+(* and without an empty line in front (comments, incl. ones with an empty  *)
+(* line in front of them, come from the placements).                       *)
+(***************************************************************************)
+BodyItems == <<
+  <<pPort, pHost, pSsl>>,
+  <<Cidr(FALSE, "10.0.0.0", "8"), Cidr(TRUE, "10.1.0.0", "16"), Cidr(FALSE, "10.2.3.4", "")>>,
+  <<TProp(sB, sA, TRUE), TProp(sA, sB, TRUE), TProp(Str("k e", "\"k%20e\""), sA, TRUE)>>,
+  <<Prop("dprop", "quorum", Postfix("%", Int("50", "50"))), DBackend(<<DProp("backend", Id("b1")), DProp("weight", i10)>>), Prop("dprop", "retries", i10)>>,
+  <<pTime, Probe(<<pThr, pReq>>), pHost>> >>
+BodyDecl(k, items) ==
+  CASE k = 1 -> Backend("b1", items) [] k = 2 -> Acl("a1", items) [] k = 3 -> Table("t1", "", items)
+    [] k = 4 -> Director("d1", "random", items) [] k = 5 -> Backend("b1", items)
+PropDocs ==
+  {[fam |-> "props", focus |-> BodyDecl(k, <<>>).a.k,
+    ds |-> <<BodyDecl(k, [i \in 1..3 |-> IF i > 1 /\ bl[i] THEN Blank(BodyItems[k][i]) ELSE BodyItems[k][i]])>>] :
+     k \in 1..5, bl \in [2..3 -> BOOLEAN]}
 
 DocA(d) == SeqA(d.ds)
 DocT(d) == CatT(d.ds)
